@@ -819,13 +819,19 @@ def xop_roundtrip(node, op):
             return pickle.loads(pickle.dumps(x, protocol=pickle.HIGHEST_PROTOCOL))
         return eval(repr(x), dict(node.evalns))
 
-    if how != "pickle" and not isinstance(a, Expr):
-        raise Skip("evalrepr-form")
+    soft = how != "pickle" and not isinstance(a, Expr)
+    if soft and not isinstance(a, Form):
+        raise Skip("evalrepr-baseform")
     try:
         b = trip(a)
     except BaseException as ex:  # noqa: B036
         if isinstance(ex, (KeyboardInterrupt, RecursionError, MemoryError)):
             raise  # injected faults are not judged here
+        if soft:
+            # eval(repr(.)) is promised for expressions only; for a form it is used as a
+            # source of history-free twins, a failure is not judged
+            node.invalidate(out)
+            return {"viol": [], "soft": "raised"}
         # The round trip itself failed: name the smallest sub-expression that fails.
         culprit = type(a).__name__
         if isinstance(a, Expr):
@@ -842,6 +848,8 @@ def xop_roundtrip(node, op):
     node.put(out, b)
     viol = []
     tn = type(a).__name__ + "/" + type(b).__name__
+    if soft and (not isinstance(b, Form) or not _eq(b, a) or not _eq(a, b)):
+        return {"viol": [], "soft": "unequal"}
     if not _eq(b, a) or not _eq(a, b):
         viol.append({"clause": "E7-" + how + "-equal", "a": slot, "b": out})
     else:
